@@ -19,11 +19,12 @@ _PUSH_BOUNDS = ("STEP lemma: every int (34) / float (18) / bool (13) instruction
                 "-128..=127 / -16..=16 plus i64::MIN, MIN+1, MAX; Power with (any base, exponent <= 2 incl. negative) and (base -3..=3, exponent 0..=70); float Multiply/ProtectedDivide "
                 "with both operands from a 9-entry table of special values (thorough: full width, cap 25 min).  Print/PrintLn of i64/f64/bool with the operand from a concrete table "
                 "(0, -1, 42, MIN, MAX; 1.5, inf, NaN, -0.0; true, false), PrintString/PrintSpace/PrintNewline/PrintPeriod.  Exec instructions (generic Pop/Push/Dup/IsEmpty/StackDepth, Noop, "
-                "DupBlock, When, Unless, IfElse) against their documented action tables on exec stacks of 0..=2 distinct sentinel programs (thorough: Swap, Flush, deeper stacks, "
-                "one-element blocks) with symbolic conditions and maxima.  BLOCK lemma on a builder-made PushState: a block of 0/2/3 sentinels unfolds in order onto an exec stack holding one "
+                "DupBlock, When, Unless, IfElse) against their documented action tables on exec stacks of 0..=2 distinct sentinel programs with symbolic conditions and maxima (Swap, Flush, deeper exec stacks next to a symbolic condition and "
+                "one-element blocks were measured at > 25 min / 9 GB per harness and are in NO tier).  BLOCK lemma on a builder-made PushState: a block of 0/2/3 sentinels unfolds in order onto an exec stack holding one "
                 "entry or is a fatal overflow that leaves the state unchanged (4 instances).  LOOP lemma (bin/mirloop, z3 on the MIR of run_to_completion): at most LIMIT steps for a symbolic "
                 "LIMIT, front-to-back order, the performed entry removed, carried state after a recoverable error, a fatal error ends the run, exit only on empty exec / limit; exec depth 0..=3, "
-                "<= 4 steps per path, the step itself fully nondeterministic.  Thorough only: DISPATCH through PushInstruction / PushProgram on a builder-made PushState and input variables")
+                "<= 4 steps per path, the step itself fully nondeterministic.  Thorough only: DISPATCH through PushInstruction / PushProgram on a builder-made PushState for int add (also with a missing operand), bool and, exec noop, print space "
+                "(float subtraction and input variables through the real HashMap exceeded 25 min and were dropped; the input lookup is decided on the MIR, see C16 / C19)")
 _PUSH_OUTSIDE = ("whole-program runs as one query: the claim is compositional -- STEP lemma (Kani/CBMC) + LOOP lemma (symbolic execution of the MIR of run_to_completion with z3: at most LIMIT "
                  "calls, front-to-back order, performed entry removed, carried state after a recoverable error, fatal error ends the run, exit only on empty exec / limit; initial exec depth <= 3, "
                  "<= 4 calls per path, callees modelled as listed in the evidence) + BLOCK/DISPATCH (thorough tier); the induction joining them is on paper; stacks deeper than 3 before the step "
